@@ -71,7 +71,7 @@ for _p in ("C15", "C16", "C19"):
 
 IGNORE_FILES = [b"out/\n", b"*.log\n", b"out/\n*.log\n", b"sub/\n", b"n.txt\n", b"src/out/\n*.txt\n",
                 b"out\n", b"sub\nlib.go\n", b"src\n", b"d e/\n*.log\n", b"k%s/\n", b"d e\n", b" d/\n", b"e /\n*.log\n",
-                b"src/n.txt\n*.log\n", b"*.log\nout/a\n"]
+                b"src/n.txt\n*.log\n", b"*.log\nout/a\n", b"*.log\n\n", b"out/\n\n*.log\n", b"\nsub/\n"]
 # the path components an ignore file talks about: they join the history's vocabulary, otherwise most
 # histories would never create a path the patterns apply to
 IGNORE_WORDS = {b"out/\n": [b"out"], b"*.log\n": [b"a.log", b"a.logx"], b"out/\n*.log\n": [b"out", b"a.log"],
@@ -80,7 +80,8 @@ IGNORE_WORDS = {b"out/\n": [b"out"], b"*.log\n": [b"a.log", b"a.logx"], b"out/\n
                 b"d e/\n*.log\n": [b"d e", b"a.log"], b"k%s/\n": [b"k%s"], b"d e\n": [b"d e", b"d"],
                 b" d/\n": [b" d", b"d"], b"e /\n*.log\n": [b"e ", b"a.log"],
                 b"src/n.txt\n*.log\n": [b"src", b"n.txt", b"n.txt.bak", b"nXtxt", b"a.log"],
-                b"*.log\nout/a\n": [b"a.log", b"out", b"a", b"ab"]}
+                b"*.log\nout/a\n": [b"a.log", b"out", b"a", b"ab"], b"*.log\n\n": [b"a.log", b"sub"],
+                b"out/\n\n*.log\n": [b"out", b"a.log"], b"\nsub/\n": [b"sub", b"lib"]}
 
 
 def relevant(prop, step, diff):
